@@ -10,15 +10,27 @@ RULE = ('family = one generated pipeline (source, 0-3 upstream stages, one prefe
         '1-2 epochs under 3 sampled schedules (policies: random, sticky, PCT, '
         'starve-consumer, starve-worker), by value and by key; oracle = the same '
         'description built sequentially. Non-trivial = at least one real context '
-        'switch; distinct = distinct (pipeline, schedule signature).')
-PROBES = ['items_refused', 'later_task_finished_first']
+        'switch; distinct = distinct (pipeline, schedule signature). Every 60th family '
+        'is systematic: a tiny workload under the non-preemptive baseline schedule and '
+        'ALL schedules with exactly one forced context switch.')
+PROBES = ['all_single_preemption_schedules_of_a_tiny_workload', 'items_refused',
+          'later_task_finished_first']
 BUDGET = {
     'quick': {'families': 6000, 'wall_cap': 420, 'shrink_s': 15},
     'thorough': {'families': 60000, 'wall_cap': 5400, 'shrink_s': 40},
 }
 
 
+def gen_systematic(rng):
+    desc = parprops.tiny_desc(rng)
+    base = {'desc': desc, 'epochs': 1, 'items': False, 'cost_seed': None, 'think_seed': 0,
+            'think_max': 0, 'trace': ['parallel_utils'], 'systematic': 1}
+    return parprops.one_preemption_cases(base, parrun.run_par_case)
+
+
 def gen(rng, tier, index):
+    if index % 60 == 59:
+        return gen_systematic(rng)
     backends = ('t',) if rng.random() < 0.5 else \
         tuple(pargen.BACKENDS_POOL) + ('False',)
     big = rng.random() < 0.1
@@ -54,6 +66,9 @@ def _out_of_order_probe(res, out):
 def run(case):
     res = parrun.run_par_case(case)
     out = parprops.base_outcome(case, res)
+    if case.get('systematic'):
+        out['fired']['systematic_one_preemption'] = 1
+        out['probes']['all_single_preemption_schedules_of_a_tiny_workload'] = 1
     if not parprops.check_failure(case, res, out):
         parprops.check_transparent(case, res, out)
         if not out['violations'] and not case.get('items'):
